@@ -15,6 +15,9 @@ def fl(quick, thorough):
     return {Q: quick, T: thorough}
 
 
+# monitors that also run over universe B (fresh definitions per VERIF_SEED) in the thorough tier
+UNIVERSE_B_PROPS = ['C01', 'C02', 'C03', 'C06', 'C07', 'C10', 'C11', 'C12', 'C13', 'C14', 'C15', 'C18']
+
 PROPS = {
     'C01': dict(
         level='exploration', flavours=fl(['debug', 'fastrel'], ['debug', 'fastrel', 'asan', 'miri']),
